@@ -16,7 +16,19 @@ LEADS = ["", "", "", "m::", "a::b::", "::m::", "m::<u8>::"]
 IDENTS = ["Tr", "Tr", "Dispatch"]
 
 
+# parenthesized arguments (`Fn(A) -> B`): no bindings to ignore, compared and hashed as printed (since /repo 94aac73). Every form has an output type
+# or an input list that is no entry of ARGS: `Tr<(u8)>` and `Tr(u8)` print the same argument tokens and therefore feed the real hasher identically
+# although the keys differ — harmless for the Hash contract (C12_hash_agrees is unconditional), but the model's feed is a list of TREES and tells the
+# two apart (C12_hash_iff_counterexample, DESIGN §10): the pool avoids that one coincidence
+PAREN_FORMS = ["(u8) -> u8", "(u8) -> u16", "() -> u8", "(u8, u16)", "(&'a str) -> Vec<u8>", "(_ŠČ0) -> _ŠČ0", "(u8) -> (u8)"]
+
+
 def make_path(rng, base=None):
+    if base is not None and base[0] == "paren":
+        return base[1], base
+    if base is None and rng.random() < 0.12:
+        p_ = rng.choice(["", "", "ops::", "::core::ops::"]) + rng.choice(["Fn", "Fn", "FnOnce", "Tr"]) + rng.choice(PAREN_FORMS)
+        return p_, ("paren", p_)
     if base is None:
         lead = rng.choice(LEADS)
         ident = rng.choice(IDENTS)
